@@ -41,7 +41,7 @@ RULE = (
 STEP_TERMS = [
     "elitism", "novelty", "tournament2", "tournament2r", "tournament5", "mutation1", "mutation05", "crossover1", "crossover05",
     "identity", "seq(tournament2,crossover1,mutation1)", "par(elitism,novelty,seq)", "xpar(mutation1,crossover1)", "lexicase",
-    "seq(lexicase,mutation1)", "default",
+    "seq(lexicase,mutation1)", "default", "evaluate", "seq(tournament2,evaluate,mutation1)",
 ]
 
 
@@ -69,6 +69,14 @@ def make_step(term):
         return GenericCrossoverStep(0.5)
     if t == "identity":
         return IdentityStep()
+    if t == "evaluate":
+        from geneticengine.algorithms.gp.operators.evaluation import EvaluateStep
+
+        return EvaluateStep()
+    if t == "seq(tournament2,evaluate,mutation1)":
+        from geneticengine.algorithms.gp.operators.evaluation import EvaluateStep
+
+        return SequenceStep(TournamentSelection(2), EvaluateStep(), GenericMutationStep(1))
     if t == "lexicase":
         return LexicaseSelection()
     if t == "seq(lexicase,mutation1)":
